@@ -26,7 +26,9 @@ TRUSTED = [
     "CPython int(), str.strip/lower/upper outside ASCII (+ the few non-ASCII characters that map to ASCII letters), the % operator outside "
     "%%, %(k)s, %(k)d, %(k)Nd, %(k)0Nd, %(k)Ns; shlex is modelled (non-POSIX mode) and exercised, not proved equal to the library",
     "os.path.isdir / pwd database / importlib resolution of result_handler: parameters of the model (existing directories, passwd table, resolvable specs)",
-    "[supervisord] options directory, logfile, loglevel, pidfile, childlogdir, user and the [unix_http_server]/[inet_http_server]/[rpcinterface:x] sections are not modelled",
+    "[supervisord] options directory, logfile, loglevel, pidfile, childlogdir, user and the [rpcinterface:x] sections are not modelled; of the "
+    "[unix_http_server]/[inet_http_server] sections only the dictionary their options are expanded with is modelled (serverExps), their converters "
+    "(inet_address, normalize_path, chmod/chown) are not -- the parsed server_configs are observed by the ENV_-source monitor",
     "fcgi-program: socket_owner (group database) and unix socket paths that normalize_path would change are outside the model",
 ]
 ASSUMPTIONS = ["the files are not modified between the two reads of one case", "the passwd database and the listed directories do not change during a run"]
@@ -42,7 +44,12 @@ RULE = ("base cases = configurations generated from the documented option space 
         "several patterns, matches in several directories, a pattern matching nothing, an included file with an [include] of its own, look-alike "
         "files no pattern matches, most sections using %(here)s in command / environment / directory / log file names; every included file's "
         "sections are re-read from one file lying in that file's directory; well-formed files with several program sections and environment= are "
-        "re-read with the sections in the opposite order and with each such section alone; a case "
+        "re-read with the sections in the opposite order and with each such section alone; the ENV_ dimension (env_source_population): files "
+        "with http server sections (none / unix / inet / both, either order, credentials plain and {SHA}) whose program-like sections set EVERY "
+        "option of the pool, every %-free option value of every section kind (program, eventlistener, fcgi-program, group, unix_http_server, "
+        "inet_http_server; [supervisord] from the process environment) rewritten as %(ENV_X)s with X defined only by [supervisord] environment=, "
+        "only in the process environment, or in both with different values; option values at their boundaries (present but empty: exitcodes=, "
+        "environment=, and every other option as a corruption whose outcome is compared with the model); a case "
         "is distinct by the parser's view of the file, non-trivial when it has at least one program-like section")
 
 
@@ -78,7 +85,8 @@ def fmt_in_subset(v):
     return True
 
 
-def in_model_subset(parser):
+def in_model_subset(parser, servers_ok=False):
+    """servers_ok: the file's http server sections are well-formed by construction (the model does not read them)"""
     for s in parser.sections():
         for k, v in parser.items(s):
             if not fmt_in_subset(v):
@@ -94,7 +102,8 @@ def in_model_subset(parser):
         if s == 'supervisord' and any(parser.has_option(s, o) for o in ('directory', 'logfile', 'loglevel', 'pidfile', 'childlogdir')):
             return False
         if s.split(':')[0] in ('unix_http_server', 'inet_http_server', 'rpcinterface', 'include') and s != 'include':
-            return False
+            if not (servers_ok and s in ('unix_http_server', 'inet_http_server')):
+                return False
     return True
 
 
@@ -513,6 +522,276 @@ def monitor_include(ctx, cfg, out, inp):
                           '%s: %%(here)s is not the directory of the file that holds the section -- %s' % (where, detail), inp)
 
 
+# ---- "the parsed value is what the documented converter gives for the written text" ------------------------------------
+TRUTHY_WORDS = ('true', 'yes', 'on', '1')
+FALSY_WORDS = ('false', 'no', 'off', '0')
+BOOL_OPTS = ('autostart', 'stopasgroup', 'killasgroup', 'redirect_stderr', 'stdout_events_enabled', 'stderr_events_enabled',
+             'stdout_syslog', 'stderr_syslog')
+INT_OPTS = ('priority', 'startsecs', 'startretries', 'stopwaitsecs', 'stdout_logfile_backups', 'stderr_logfile_backups')
+SIZE_OPTS = ('stdout_capture_maxbytes', 'stderr_capture_maxbytes', 'stdout_logfile_maxbytes', 'stderr_logfile_maxbytes')
+
+
+def ref_bool(t):
+    if t.lower() in TRUTHY_WORDS: return True
+    if t.lower() in FALSY_WORDS: return False
+    raise ValueError(t)
+
+
+def ref_convert(opt, t):
+    """the value the documentation gives the text `t` of option `opt` (ValueError: not a value of that type).
+    Written from docs/configuration.rst, independent of supervisor.datatypes."""
+    if opt in BOOL_OPTS:
+        return ref_bool(t)
+    if opt in INT_OPTS:
+        return int(t)
+    if opt in SIZE_OPTS:
+        l = t.lower()
+        for suf, m in (('kb', 1024), ('mb', 1024 ** 2), ('gb', 1024 ** 3)):
+            if l.endswith(suf):
+                return int(l[:-2]) * m
+        return int(l)
+    if opt == 'exitcodes':           # a comma-separated list of exit statuses; an empty list: no status is expected
+        return [int(x) for x in t.split(',')] if t else []
+    if opt == 'autorestart':
+        if t.lower() == 'unexpected': return 'unexpected'
+        return 'always' if ref_bool(t) else 'never'
+    if opt == 'stopsignal':
+        try:
+            return int(t)
+        except ValueError:
+            name = t.strip().upper()
+            return int(getattr(signal, name if name.startswith('SIG') else 'SIG' + name))
+    if opt == 'umask':
+        return int(t, 8)
+    if opt == 'user':
+        import pwd
+        try:
+            return int(t)
+        except ValueError:
+            return pwd.getpwnam(t).pw_uid
+    if opt == 'serverurl':
+        return None if t.strip().upper() == 'AUTO' else t
+    if opt in ('directory', 'command'):
+        return t
+    raise KeyError(opt)
+
+
+def monitor_written(ctx, sections, out, inp):
+    """every option a program-like section WRITES (values free of %-expansions) has, in each of its processes, the value the
+    documented converter gives for the written text -- in particular at the boundaries: an option that is present but
+    empty is the empty value of its type (exitcodes= : no expected exit status; environment= : no variable), not the
+    default of an absent option.  Sections taken by a [group:x] are checked through the others."""
+    grouped = {p.strip() for n, o in sections if n.startswith('group:') for k, v in o if k.lower() == 'programs' for p in v.split(',')}
+    groups = {}
+    for g in out.options.configroot.supervisord.process_group_configs:
+        groups.setdefault(g.name, []).append(g)
+    for sname, opts in sections:
+        kind = sname.split(':')[0]
+        if kind not in PROGRAM_LIKE:
+            continue
+        name = sname.split(':', 1)[1].strip()
+        keys = [k.lower() for k, _ in opts]
+        if name in grouped or len(groups.get(name, [])) != 1 or len(set(keys)) != len(keys):
+            continue
+        d = {k.lower(): v.strip() for k, v in opts}
+        procs = groups[name][0].process_configs
+        for opt, t in sorted(d.items()):
+            if any(c in t for c in '%\n;#'):       # (; and # can start a comment: ConfigParser tokenisation is trusted, not restated)
+                continue
+            try:
+                want = ref_convert(opt, t)
+            except KeyError:
+                want = None
+                if opt not in ('stdout_logfile', 'stderr_logfile', 'environment'):
+                    continue
+            except (ValueError, AttributeError, TypeError, OverflowError):
+                continue            # not a value of the option's type: the rejection monitors deal with it
+            ctx.count('written-value-checked:' + opt + ('(empty)' if t == '' else ''))
+            for p in procs:
+                if opt == 'autorestart':
+                    got = L._restart(p.autorestart)
+                elif opt == 'stopsignal':
+                    got = int(p.stopsignal)
+                elif opt == 'user':
+                    got = p.uid
+                elif opt in ('stdout_syslog', 'stderr_syslog'):
+                    if d.get(opt[:6] + '_logfile', '').lower() == 'syslog':
+                        continue
+                    got = getattr(p, opt)
+                elif opt == 'killasgroup' or opt == 'stopasgroup':
+                    got = getattr(p, opt)
+                elif opt in ('stdout_logfile', 'stderr_logfile'):
+                    if opt == 'stderr_logfile' and p.redirect_stderr:
+                        continue
+                    lf = L._lf(getattr(p, opt))
+                    w = t.lower()
+                    want = 'None' if w in ('none', 'off', 'syslog') else 'AUTO' if w == 'auto' else 'P:' + L.hx(t)
+                    got = lf
+                    if w == 'syslog' and not getattr(p, opt[:6] + '_syslog'):
+                        ctx.violation('option-value-not-as-written:' + opt, '%s: %s=syslog, but %s_syslog is off for process %s' % (sname, opt, opt[:6], p.name), inp)
+                elif opt == 'environment':
+                    continue        # (needs the [supervisord] environment: monitor_valid)
+                else:
+                    got = getattr(p, opt)
+                if got != want:
+                    ctx.violation('option-value-not-as-written:' + opt,
+                                  '[%s] writes %s=%r, which denotes %r; process %s has %r' % (sname, opt, t, want, p.name, got), inp)
+                    break
+
+
+# ---- where an ENV_ variable comes from ---------------------------------------------------------------------------------
+ENV_SOURCES = ('supenv', 'both', 'osenv')
+
+
+def env_eligible(sname, opt, v, source):
+    """may the value v of this option be written as %(ENV_X)s?  ([include] is read before any section; the [supervisord]
+    section's own options are read before its environment= is known: process environment only)"""
+    kind = sname.split(':')[0]
+    if kind == 'include' or kind.startswith('rpcinterface') or kind in ('supervisorctl', 'ctlplugin'):
+        return False
+    if kind == 'supervisord' and (source != 'osenv' or opt.lower() == 'environment'):
+        return False
+    return not any(c in v for c in '%"\'\n\\;#') and v == v.strip()
+
+
+def env_rewrite(sections, source, only=None):
+    """-> (baseline sections, substituted sections, extra process environment, [(section, option, variable, value)])
+    Every eligible option value (or only the one at position `only`) is replaced by %(ENV_XVk)s; XVk is defined with the
+    replaced text in [supervisord] environment= ('supenv'), in the process environment ('osenv'), or in both with ANOTHER
+    value in the process environment ('both': the file's definition is the one that counts).  The baseline defines the same
+    variables and uses none of them."""
+    subs = []
+    out = []
+    for si, (sname, opts) in enumerate(sections):
+        o2 = []
+        for oi, (k, v) in enumerate(opts):
+            if env_eligible(sname, k, v, source):
+                var = 'XV%d' % len(subs)
+                subs.append((si, oi, sname, k, var, v))
+                o2.append((k, '%%(ENV_%s)s' % var if only is None or only == len(subs) - 1 else v))
+            else:
+                o2.append((k, v))
+        out.append((sname, o2))
+    defs = ','.join('%s="%s"' % (var, v) for _, _, _, _, var, v in subs)
+    osenv = {}
+    if source == 'osenv':
+        osenv = {var: v for _, _, _, _, var, v in subs}
+        base = [(n, list(o)) for n, o in sections]
+    else:
+        if source == 'both':
+            osenv = {var: 'inherited-%d' % i for i, (_, _, _, _, var, _) in enumerate(subs)}
+        def with_defs(secs):
+            r = []
+            for n, o in secs:
+                if n == 'supervisord' and defs:
+                    cur = [v for k, v in o if k.lower() == 'environment']
+                    o = [(k, v) for k, v in o if k.lower() != 'environment'] + [('environment', (cur[-1].rstrip().rstrip(',') + ',' if cur and cur[-1].strip() else '') + defs)]
+                r.append((n, o))
+            return r
+        base, out = with_defs(sections), with_defs(out)
+    return base, out, osenv, [(sname, k, var, v) for _, _, sname, k, var, v in subs]
+
+
+def env_observe(ctx, secs, osenv, tag):
+    env = dict(L.ENV_VARS); env.update(osenv)
+    path = L.write_config({'sections': secs, 'include': []}, ctx.scratch, tag)
+    o = L.parse_with(L.make_options(env), path, reread=True)
+    if o.status != 'ok':
+        return o, (o.status,)
+    return o, (o.status, L.impl_case(o)[1], L.server_lines(o.options))
+
+
+def monitor_servers(ctx, sections, out, inp):
+    """the parsed http server configurations are the ones the file writes (values free of %-expansions): one configuration per
+    section, credentials as written, the port split into host and number, the socket path, the mode"""
+    import socket
+    confs = {}
+    for c in out.options.configroot.supervisord.server_configs:
+        confs.setdefault(c.get('section'), []).append(c)
+    want_secs = [n for n, _ in sections if n in ('unix_http_server', 'inet_http_server')]
+    if sorted(confs) != sorted(set(want_secs)) or any(len(v) != 1 for v in confs.values()):
+        ctx.violation('server-config-not-as-written:sections', 'server configurations for %r, the file has %r' % (sorted(confs), want_secs), inp)
+        return
+    for sname, opts in sections:
+        if sname not in confs:
+            continue
+        c = confs[sname][0]
+        d = {k.lower(): v.strip() for k, v in opts}
+        want = {'family': socket.AF_UNIX if sname.startswith('unix') else socket.AF_INET,
+                'username': d.get('username'), 'password': d.get('password')}
+        if 'port' in d:
+            host, _, port = d['port'].rpartition(':')
+            want['host'] = '' if host == '*' else host.lower()
+            try:
+                want['port'] = int(port)
+            except ValueError:
+                want.pop('host')
+        if 'file' in d:
+            want['file'] = os.path.normpath(d['file'])
+        if 'chmod' in d:
+            want['chmod'] = int(d['chmod'], 8)
+        for k, v in sorted(want.items()):
+            if isinstance(v, str) and any(ch in v for ch in '%;#'):
+                continue
+            ctx.count('server-value-checked:' + k)
+            if c.get(k) != v:
+                ctx.violation('server-config-not-as-written:' + k, '[%s] writes %s=%r; the parsed configuration has %r' % (
+                    sname, {'host': 'port', 'family': 'section'}.get(k, k), d.get({'host': 'port'}.get(k, k)), c.get(k)), inp)
+
+
+def env_source_case(ctx, st, sections, source, label, tag='e'):
+    """the metamorphic statement of 'ENV_ variables' in the property's quantifier: writing an option value as %(ENV_X)s, X
+    being defined with that text, changes nothing -- for every option of every section kind and wherever X is defined"""
+    base, sub, osenv, subs = env_rewrite(sections, source)
+    if not subs:
+        return
+    a, oa = env_observe(ctx, base, osenv, tag)
+    if a.status != 'ok':
+        ctx.count('env-source:baseline-rejected'); return
+    if source == ENV_SOURCES[0] or label.startswith('corpus'):
+        inp0 = {'label': label, 'must_reject': None, 'sections': base, 'include': [], 'layout': None, 'facts': None, 'env': L.ENV_VARS}
+        monitor_servers(ctx, base, a, inp0)
+        monitor_written(ctx, base, a, inp0)
+    b, ob = env_observe(ctx, sub, osenv, tag)
+    ctx.count('env-source:' + source)
+    for sname, k, _, _ in subs:
+        ctx.count('env-source-option:%s.%s' % (sname.split(':')[0], k.lower()))
+    ctx.case_done(('env-source', source, repr(sub)), True)
+    if b.status.startswith('exc'):
+        ctx.violation(exc_kind(b, sub), '%s instead of an error message: %s' % (b.status[4:], b.message[:160]),
+                      {'label': label, 'env_source': source, 'sections': sections})
+    if oa != ob:
+        # name the options: each substitution on its own
+        culprits = []
+        first = None
+        for i, (sname, k, var, v) in enumerate(subs):
+            _, s1, _, _ = env_rewrite(sections, source, only=i)
+            c, oc = env_observe(ctx, s1, osenv, tag)
+            if oc != oa:
+                culprits.append('[%s] %s=%%(ENV_%s)s (%s=%r)%s' % (sname, k, var, var, v, ': ' + c.message[:120] if c.status != 'ok' else ''))
+                first = first if first is not None else i
+            if len(culprits) >= 4:
+                break
+        where = {'supenv': 'defined only by [supervisord] environment=', 'osenv': 'defined only in the process environment',
+                 'both': 'defined by [supervisord] environment= and, with another value, in the process environment'}[source]
+        inp = {'label': label, 'env_source': source, 'sections': sections, 'only': first}
+        if b.status != 'ok':
+            ctx.violation('rejected-wellformed:env-expansion:' + source,
+                          'a well-formed file is rejected when option values are written as %%(ENV_X)s with X %s: %s; options: %s' % (
+                              where, b.message[:160], '; '.join(culprits) or '(only in combination)'), inp)
+        else:
+            diff = next((('%r' % x, '%r' % y) for x, y in zip(oa[1] + oa[2], ob[1] + ob[2]) if x != y), ('', ''))
+            ctx.violation('env-expansion-not-transparent:' + source,
+                          'option values written as %%(ENV_X)s with X %s do not denote the text X is defined with; options: %s; first difference: %s / literal: %s' % (
+                              where, '; '.join(culprits) or '(only in combination)', diff[1][:200], diff[0][:200]), inp)
+    # the substituted file against the model
+    if b.parser is not None and b.include_done and in_model_subset(b.parser, servers_ok=True):
+        toks = L.model_tokens(b, L.known_dirs([ctx.scratch, b.here or '/']))
+        ops, lines = L.impl_case(b)
+        st['cases'].append(('case config ' + ' '.join(toks), ops)); st['impls'].append(lines); st['labels'].append(label)
+        ctx.count('env-source:compared-with-model')
+
+
 def exc_kind(out, sections):
     return 'other-exception:' + out.status.split(' ', 1)[1]
 
@@ -540,6 +819,8 @@ def check_case(ctx, st, cfg, label, must_reject, tag):
         if must_reject is True:
             ctx.violation('accepted-malformed:' + label.split(':')[0].split('=')[0], 'the file violates a documented constraint (%s) and was accepted' % label, inp)
         monitor_accepted(ctx, a, inp, a.parser)
+        monitor_written(ctx, cfg['sections'], a, inp)
+        monitor_servers(ctx, cfg['sections'], a, inp)
         if must_reject is False:
             monitor_valid(ctx, cfg, a, inp)
         monitor_include(ctx, cfg, a, inp)
@@ -618,6 +899,8 @@ _C143B = [('command', '/bin/w %(ENV_VERIF_A)s'), ('process_name', 'w_%(ENV_VERIF
           ('environment', 'VERIF_B="%(ENV_VERIF_B)s.%(process_num)d",VERIF_A="pre:%(ENV_VERIF_A)s"'),
           ('stderr_logfile', '/tmp/%(ENV_VERIF_B)s.err')]
 
+_EMPTYX = [('command', '/bin/true'), ('exitcodes', ''), ('environment', ''), ('autorestart', 'unexpected')]
+
 _ENV3 = [('supervisord', [('environment', 'C18_GLOBAL="g",C18_SHARED="from_supervisord"')]),
          ('program:alpha', [('command', '/usr/bin/env'), ('environment', 'C18_ONLY_ALPHA="1",C18_SHARED="from_alpha"')]),
          ('program:beta', [('command', '/usr/bin/env')]),
@@ -667,6 +950,10 @@ CORPUS = [
     # seeded change C18-6 (one environment dictionary shared by all programs): several programs, different environment=, a
     # [supervisord] environment that one of them overrides and one does not touch
     ('C18-6-environments-of-several-programs', False, _ENV3, _ENV3_FACTS, None),
+    # seeded change C03-7 (`get(section, 'exitcodes', '0') or '0'`): a present-but-empty exitcodes= is "no expected exit status"
+    ('C03-7-empty-exitcodes', False, [('supervisord', []), ('program:a', _EMPTYX)], _facts(None, _EMPTYX), None),
+    ('C03-7-empty-exitcodes-listener', None, [('supervisord', []), ('eventlistener:l', [('command', 'x'), ('events', 'TICK_5'), ('exitcodes', ''),
+                                                                                          ('environment', '')])], None, None),
     # plain regression cases
     ('numprocs-40', None, [('supervisord', []), ('program:w', [('command', '/bin/w %(process_num)02d'), ('numprocs', '40'), ('numprocs_start', '-3'),
                                                                ('process_name', '%(program_name)s_%(process_num)03d')])], None, None),
@@ -702,8 +989,43 @@ def run(ctx):
             c2 = {'sections': secs, 'include': [j for j in cfg['include'] if j < len(secs)] if len(secs) == len(cfg['sections']) else []}
             check_case(ctx, st, c2, label, must, 'x')
     layout_population(ctx, st, rng)
+    env_source_population(ctx, st, rng)
     ctx.correspond('config', st['cases'], st['impls'])
     ctx.correspond('include', st.get('icases', []), st.get('iimpls', []))
+
+
+# seeded changes C14-8 (the parser expands with a snapshot of the ENV_ expansions) and C17-7 (the http server sections are parsed
+# before the [supervisord] environment reaches the ENV_ expansions): the demos' files
+ENV_CORPUS = [
+    ('C14-8-demo', [('supervisord', [('environment', 'C14_N="3",C14_PRIO="7",C14_SIG="USR1",C14_CODES="0,2"')]),
+                    ('program:worker', [('command', '/bin/worker --n=3'), ('process_name', 'worker_%(process_num)d'), ('numprocs', '3'), ('priority', '7'),
+                                        ('stopsignal', 'USR1'), ('exitcodes', '0,2'), ('autostart', 'false'), ('user', 'root'), ('umask', '027'),
+                                        ('serverurl', 'http://localhost:9001'), ('startsecs', '2')]),
+                    ('eventlistener:listener', [('command', '/bin/listener'), ('events', 'PROCESS_STATE,TICK_60'), ('buffer_size', '25')]),
+                    ('group:g', [('programs', 'worker'), ('priority', '5')])]),
+    ('C17-7-demo', [('supervisord', [('environment', 'HTPASS="from-config-file"')]),
+                    ('unix_http_server', [('file', '/tmp/c17seed7.sock'), ('username', 'admin'), ('password', 'from-config-file')]),
+                    ('inet_http_server', [('port', '127.0.0.1:49001'), ('username', 'admin'), ('password', '{SHA}82ab876d1387bfafe46cc1c8a2ef074eae50cb1d')]),
+                    ('program:cat', [('command', '/bin/cat')])]),
+    ('fcgi-and-empty-values', [('supervisord', []),
+                               ('fcgi-program:f', [('command', '/bin/f'), ('socket', 'tcp://localhost:9100'), ('socket_backlog', '128'), ('exitcodes', ''),
+                                                   ('priority', '3'), ('environment', '')])]),
+]
+
+
+def env_source_population(ctx, st, rng):
+    """the 'ENV_ variables' dimension: where the variable of a %(ENV_X)s comes from (the process environment, [supervisord]
+    environment=, both with different values) x EVERY option of every section kind that takes expansions (program,
+    eventlistener, fcgi-program, group, unix_http_server, inet_http_server; [supervisord] itself from the process environment)"""
+    for label, secs in ENV_CORPUS:
+        for source in ENV_SOURCES:
+            env_source_case(ctx, st, secs, source, 'corpus:env-source:' + label)
+    n = ctx.n(14, 120)
+    for i in range(n):
+        cfg = L.gen_config(rng, ctx.scratch, small=True, servers=True, full=(i % 2 == 0))
+        secs = [(sn, [(k, str(min(int(v), 6)) if k == 'numprocs' and v.strip().isdigit() else v) for k, v in o]) for sn, o in cfg['sections']]
+        for source in (ENV_SOURCES if i % 2 == 0 or ctx.tier == 'thorough' else [ENV_SOURCES[(i // 2) % 3]]):
+            env_source_case(ctx, st, secs, source, 'env-source')
 
 
 def _app(name):
@@ -764,6 +1086,10 @@ def layout_population(ctx, st, rng):
 def replay(ctx, data):
     inp = data['input']
     st = {'cases': [], 'impls': [], 'labels': [], 'k': 0}
+    if inp.get('env_source'):
+        env_source_case(ctx, st, [(s, [tuple(o) for o in opts]) for s, opts in inp['sections']], inp['env_source'], inp['label'], tag='r')
+        ctx.correspond('config', st['cases'], st['impls'])
+        return
     cfg = {'sections': [(s, [tuple(o) for o in opts]) for s, opts in inp['sections']], 'include': inp.get('include') or [],
            'layout': inp.get('layout'), 'facts': inp.get('facts')}
     check_case(ctx, st, cfg, inp['label'], inp['must_reject'], 'r')
@@ -778,12 +1104,18 @@ TECHNIQUE = ("Lean 4 theorems over a table-driven model of configuration process
              "their single-point corruptions; monitors restating the property on the real objects, incl. metamorphic re-reads: every "
              "numprocs > 1 section as single processes, the sections of every included file from one file in that file's directory, sections "
              "in the opposite order, a section alone; the include stage and the environment loop of read_config are modelled over extracted facts "
-             "(which directory expand_here gets per matched file; whether the [supervisord] environment is copied per process)")
+             "(which directory expand_here gets per matched file; whether the [supervisord] environment is copied per process; whether the parser "
+             "expands with the options' own ENV_ dictionary or a snapshot, and whether the program and the http server sections are parsed after the "
+             "[supervisord] environment was added to it; lookups written `get(...) or '<text>'`); metamorphic ENV_-source monitor (an option value "
+             "written as %(ENV_X)s denotes the text X is defined with, wherever X is defined) and the written-value monitor (each written option has "
+             "the value the documented converter gives for its text, the empty text included)")
 LEVEL_TEXT = ("numprocs law, per-process independence of expansion (process k is what a fresh single-process expansion yields; over the generated "
               "placement of the statements that rebuild the expansion dictionary inside the numprocs loop), group membership, listener subscription, "
               "environment precedence, independence of a program's environment from the other sections (environment_independent_of_other_sections, "
               "read_config_environment), %(here)s of an included file = that file's directory for all patterns and matches "
-              "(include_here_is_directory_of_file), ordering and the rejection of every documented constraint are proved for all parsed files (no bound on "
+              "(include_here_is_directory_of_file), visibility of the [supervisord] environment as ENV_ names with the file's value in every section kind "
+              "(sections_see_supervisord_environment, env_var_of_supervisord_environment), no replacement of a present-but-empty value "
+              "(written_value_is_converted), ordering and the rejection of every documented constraint are proved for all parsed files (no bound on "
               "sections, options, numprocs); documented defaults = coded defaults is decided over the generated tables; the model is tied to the "
               "code by the generated tables and by running both on the same files")
 LEVEL_NOTE = "trusts ConfigParser tokenisation, CPython string/int/% semantics outside the stated subset, the file system / passwd / importlib parameters"
